@@ -18,14 +18,8 @@ cp /repo/go.sum $WT/go.sum
 res_apply=ok; (cd $WT && git apply $OUT/patch.diff) || res_apply=FAILED
 tests=ok; (cd $WT && go test -vet=off -count=1 -timeout 10m . ./index/... ./encoding/geojson ./encoding/hex ./encoding/shp ./encoding/wkb ./encoding/wkt ./proj/... ./route/... ./op/... > $OUT/tests_with_change.log 2>&1) || tests=FAILED
 git -C /repo worktree remove --force $WT; rm -rf $WT
-if [ -n "$(git -C /repo status --porcelain)" ]; then echo "harmlesseval: /repo has uncommitted changes" >&2; exit 3; fi
 rc=-1
-if [ $res_apply = ok ] && git -C /repo apply $OUT/patch.diff; then
-  cp /verif/evidence/$PROP.json /tmp/evidence_$PROP.keep 2>/dev/null
-  /verif/check $PROP quick > $OUT/check_with_change.log 2>&1; rc=$?
-  git -C /repo checkout -- .
-  [ -f /tmp/evidence_$PROP.keep ] && mv /tmp/evidence_$PROP.keep /verif/evidence/$PROP.json
-fi
+if [ $res_apply = ok ]; then /verif/tools/scratchcheck.sh $PROP $OUT/patch.diff $OUT/check_with_change.log; rc=$?; fi
 python3 - "$OUT" "$PROP" "$res_apply" "$tests" "$rc" <<'P'
 import json,sys
 out,prop,ra,tests,rc=sys.argv[1:6]; rc=int(rc)
